@@ -143,9 +143,11 @@ class BracexCounter:
         self.bracex = bracex
         self.orig = bracex.iexpand
         self.drawn = 0
+        self.limits = []
         outer = self
 
         def iexpand(*a, **k):
+            outer.limits.append(k.get('limit', 'default'))
             for item in outer.orig(*a, **k):
                 outer.drawn += 1
                 if outer.cap is not None and outer.drawn > outer.cap:
@@ -235,6 +237,13 @@ def run_case(eps, ename, incs, excs, inline, L, out, armed, explicit=True):
             return
     if effL > 0 and bc.drawn > effL + npats + 1:
         out.violation(dict(case, problem='expansion work not bounded by the limit'), size=T, bucket=('work', ename))
+        return
+    # the brace expander does its work before it yields the first item, so the bound must be handed to it: with a positive
+    # limit every bracex.iexpand call must receive a positive bound no larger than the limit
+    unbounded = [l for l in bc.limits if not (isinstance(l, int) and 0 < l <= effL)]
+    if effL > 0 and unbounded:
+        out.violation(dict(case, problem='brace expansion invoked without an effective bound although a positive limit is in force',
+                           bracex_limits=[repr(l) for l in bc.limits][:6]), size=T, bucket=('bracex-bound', ename))
         return
     if abs(T - effL) <= 1 or abs(U - effL) <= 1 or excs:
         out.nontrivial((ename, L, tuple(pats), tuple(excl), inline))
